@@ -26,6 +26,8 @@ type Workload struct {
 	InProgress int   `json:"in_progress"` // op that was running when the process died (-1: none)
 	Durable    []int `json:"durable"`     // blocks acknowledged before the last completed leveldb commit
 	Clock      int64 `json:"clock"`
+	// RedoFrom: operations before this index were acknowledged before the last completed leveldb commit (durable)
+	RedoFrom int `json:"redo_from"`
 	// RecoverUtxoCache, when non-zero, is the utxo cache size of the recovery runs (an operator may restart with
 	// another setting): a small value makes the start-up replay flush several times
 	RecoverUtxoCache uint64 `json:"recover_utxo_cache"`
